@@ -98,6 +98,54 @@ static vf::Verdicts eval(const Inst &in, vf::Ctx &ctx) {
     ctx.nontrivial(vf::fnv(enc(in)));
     return out;
   }
+  if (in.mode == 3) {
+    const R4 &A = in.obs[0], &B = in.obs[1];
+    R4 rect[2] = {A, B};
+    bool fixedF[2] = {false, false}, obsF[2] = {true, true};
+    Circuit c(3);
+    int rh = row.maxY - row.minY;
+    c.setCellWidth({A.x1 - A.x0, B.x1 - B.x0, 1}); c.setCellHeight({A.y1 - A.y0, B.y1 - B.y0, rh});
+    c.setCellX({A.x0, B.x0, row.minX}); c.setCellY({A.y0, B.y0, row.minY});
+    c.setRows({r});
+    std::string hist;
+    int code = in.flags;
+    auto checkNow = [&](const std::string &when) -> bool {
+      std::vector<Row> got;
+      CallResult cr = guarded([&] { got = c.computeRows(); });
+      if (cr.threw) { out.push_back({"computeRows-throws", cr.what + " | " + when + " | " + enc(in)}); return false; }
+      std::vector<Rect> eff;
+      for (int k = 0; k < 2; ++k)
+        if (fixedF[k] && obsF[k]) eff.push_back({rect[k].x0, rect[k].x1, rect[k].y0, rect[k].y1});
+      std::string why = compare(row, eff, got);
+      if (!why.empty()) { out.push_back({"computeRows-after-setter-history:" + why, "after" + when + " | " + enc(in)}); return false; }
+      return true;
+    };
+    if (!checkNow(" construction")) return out;
+    while (code > 0) {
+      int op = code % 10 - 1;
+      code /= 10;
+      if (op < 4) {
+        fixedF[0] = op & 1; fixedF[1] = op & 2;
+        c.setCellIsFixed({fixedF[0], fixedF[1], false});
+        hist += " setCellIsFixed(" + std::to_string(op) + ")";
+      } else if (op < 8) {
+        obsF[0] = (op - 4) & 1; obsF[1] = (op - 4) & 2;
+        c.setCellIsObstruction({obsF[0], obsF[1], true});
+        hist += " setCellIsObstruction(" + std::to_string(op - 4) + ")";
+      } else {
+        // the two cells exchange their lower-left corners (sizes stay)
+        R4 a = rect[0], b = rect[1];
+        rect[0] = {b.x0, b.x0 + (a.x1 - a.x0), b.y0, b.y0 + (a.y1 - a.y0)};
+        rect[1] = {a.x0, a.x0 + (b.x1 - b.x0), a.y0, a.y0 + (b.y1 - b.y0)};
+        c.setCellX({rect[0].x0, rect[1].x0, row.minX}); c.setCellY({rect[0].y0, rect[1].y0, row.minY});
+        hist += " exchange";
+      }
+      ctx.count("history_steps_checked");
+      if (!checkNow(hist)) return out;
+    }
+    ctx.nontrivial(vf::fnv(enc(in)));
+    return out;
+  }
   if (in.mode == 0) {
     std::vector<Rectangle> obs;
     std::vector<Rect> eff;
@@ -161,7 +209,7 @@ int main(int argc, char **argv) {
   c.rule =
       "row [0,4)x[0,2) N plus three variants (offset start / FS, offset y / S, height 1 / FN) x every set of <= 2 (thorough: 3 on a reduced grid) obstacle "
       "rectangles with corners on the grid {-1..5}x{-1..3} (min <= max, degenerate ones included) through Row::freespace; through Circuit::computeRows with the "
-      "obstacles as cells carrying every fixed/obstruction flag combination and orientations N/S/W/FE (the rectangle being the placed footprint), optionally the last one as an extra obstacle, next to an unrelated row; histories on one Circuit object: computeRows, then one of 8 setters (setCellX/Y, setSolution, setCellWidth/Height, setCellIsFixed, setCellIsObstruction, setCellOrientation) changing the obstruction from rectangle A to B, then computeRows again; oracle = "
+      "obstacles as cells carrying every fixed/obstruction flag combination and orientations N/S/W/FE (the rectangle being the placed footprint), optionally the last one as an extra obstacle, next to an unrelated row; histories on one Circuit object: computeRows, then one of 8 setters (setCellX/Y, setSolution, setCellWidth/Height, setCellIsFixed, setCellIsObstruction, setCellOrientation) changing the obstruction from rectangle A to B, then computeRows again; every sequence of <= 3 (thorough 4) flag setters / position exchanges on two obstacle cells with computeRows after each step; oracle = "
       "column oracle (a column is free iff no non-degenerate effective obstacle meets the open column x row height): segments disjoint, full height, inside "
       "the row, same orientation, union = free columns; non-trivial = the free space differs from the whole row";
   c.bounds = th ? "triples on grid {-1,0,2,4,5}x{-1,0,1,2,3}" : "pairs on the full grid";
@@ -205,6 +253,31 @@ int main(int argc, char **argv) {
           for (int fl = 0; fl < 16; ++fl) {
             f(Inst{rv, {red[i], red[j]}, 1, fl});
             if (fl < 4) f(Inst{rv, {red[i], red[j]}, 1, fl | (1 << 4)});  // second one as extra obstacle
+          }
+    }
+    // histories of the flag setters on one Circuit object (mode 3): every sequence of <= 3 (thorough 4) operations over
+    // {setCellIsFixed(m), setCellIsObstruction(m) for every mask m over the two obstacle cells, exchange of the two cells'
+    // positions}, computeRows compared with the column oracle after every step
+    {
+      std::vector<R4> menu = {{1, 3, 0, 2}, {2, 5, 1, 3}, {0, 1, -1, 1}, {3, 4, 0, 2}, {-1, 2, 0, 1}, {4, 5, 0, 2}};
+      int maxLen = th ? 4 : 3;
+      for (int rv = 0; rv < 2; ++rv)
+        for (size_t i = 0; i < menu.size(); ++i)
+          for (size_t j = 0; j < menu.size(); ++j) {
+            if (i == j) continue;
+            if (!th && (i + 2 * j) % 3 != 0) continue;  // quick: a third of the ordered pairs
+            std::vector<int> seq;
+            // only maximal sequences are emitted (every prefix is checked on the way)
+            std::function<void()> recMax = [&]() {
+              if ((int)seq.size() == maxLen) {
+                int code = 0;
+                for (size_t k = seq.size(); k-- > 0;) code = code * 10 + seq[k] + 1;
+                f(Inst{rv, {menu[i], menu[j]}, 3, code});
+                return;
+              }
+              for (int op = 0; op < 9; ++op) { seq.push_back(op); recMax(); seq.pop_back(); }
+            };
+            recMax();
           }
     }
   };
